@@ -729,6 +729,9 @@ func report(prop string, cfg PropConfig, w *World, results []*unitResult, all []
 		return 1
 	}
 	if len(violations) > 0 {
+		for _, i := range infra {
+			fmt.Printf("UNDECIDED property=%s reason=%s\n", prop, i)
+		}
 		return 1
 	}
 	if len(infra) > 0 {
